@@ -139,6 +139,12 @@ func cmdC14Child(args []string) {
 			// Extend on a value handed out by Detect (a copy, not a node of the tree): the tree must not change
 			x, _ := hexDecode(o.parent[1:])
 			mimetype.Detect(x).Extend(o.pred.fn(), o.mime, o.ext, al...)
+		} else if strings.HasPrefix(o.parent, "^") {
+			// ... and on an ancestor of such a value (Parent() of a result is a copy too)
+			x, _ := hexDecode(o.parent[1:])
+			if anc := mimetype.Detect(x).Parent(); anc != nil {
+				anc.Extend(o.pred.fn(), o.mime, o.ext, al...)
+			}
 		} else {
 			p := mimetype.Lookup(o.parent)
 			if p == nil {
@@ -183,6 +189,20 @@ func cmdC14Child(args []string) {
 					_, onlyCharset := params["charset"]
 					if len(params) != 1 || !onlyCharset || !(mt == "text/plain" || mt == "text/html" || mt == "text/xml") {
 						fmt.Fprintf(out, "!propfail\tC02\tresult %q carries a parameter although it is not one of text/plain, text/html, text/xml (or a parameter other than charset); input=%s history=%s\n", m.String(), hx(x), args[0])
+					}
+				}
+				// a result (and every ancestor it reports) answers to the aliases of the format it stands for
+				for p := m; p != nil; p = p.Parent() {
+					if l := mimetype.Lookup(bareType(p.String())); l != nil && l.Extension() == p.Extension() {
+						for _, n := range nodes {
+							if n.Node == l {
+								for _, a := range n.Aliases {
+									if norm, _, err := mime.ParseMediaType(a); err == nil && norm == a && !p.Is(a) {
+										fmt.Fprintf(out, "!propfail\tC14\ta detection result for %q does not answer Is(%q), an alias of the format it stands for (after Extend calls); input=%s history=%s\n", p.String(), a, hx(x), args[0])
+									}
+								}
+							}
+						}
 					}
 				}
 				for p := m; p != nil; p = p.Parent() {
@@ -354,7 +374,7 @@ func runC14(c *runCtx) {
 				al = append(al, fmt.Sprintf("application/x-verif-alias-%d-%d; version=2", h, i))
 			}
 			ops = append(ops, c14op{par, name, fmt.Sprintf(".v%d", i), al, pred})
-			if !strings.HasPrefix(par, "@") { // registered on a copy: not a node of the tree, cannot be a parent later
+			if !strings.HasPrefix(par, "@") && !strings.HasPrefix(par, "^") { // registered on a copy: not a node of the tree, cannot be a parent later
 				extNames = append(extNames, name)
 			}
 		}
@@ -370,6 +390,8 @@ func runC14(c *runCtx) {
 				{"text/plain", nm(2), ".c2", nil, nv}, {txt, nm(3), ".c3", []string{nm(3) + "-alias"}, nv},
 				{"", nm(4), ".c4", nil, nv}, {bin, nm(5), ".c5", nil, predSpec{"always", nil, 0}},
 				{"application/json", nm(6), ".c6", nil, nv}, {"@" + hx([]byte(`{"a":1}`)), nm(7), ".c7", nil, nv},
+				{"^" + hx([]byte("plain text")), nm(8), ".c8", nil, predSpec{"always", nil, 0}}, {"^" + hx([]byte(`{"type":"Feature"}`)), nm(9), ".c9", []string{nm(9) + "-alias"}, predSpec{"always", nil, 0}},
+				{"^" + hx([]byte("%PDF-1.4")), nm(10), ".c10", nil, predSpec{"always", nil, 0}},
 			}
 			nops = len(ops)
 		}
